@@ -31,6 +31,7 @@ def trees():
         R("VInh", {"v": 2}, first=R("VPair", pair=(L(7), L(8))), items=(), one=L(9), extra=R("VAbAc", ab=L(10), ac=None)),
         L(11, "c"),
         R("VValidated", {"v": 1, "note": "ok"}, "a", kid=R("VValidated", {"v": 2}, kid=L(12))),
+        R("VMany", {}, "b", items=(R("VReq", {}, "a", child=L(13)), R("VOne", {}, "xml", one=L(14)), L(15, "c"))),
     ]
 
 
@@ -58,6 +59,15 @@ def _ops():
         def visit_VLeaf(self, node):
             raise RuntimeError("boom")
 
+    class Unwrap(ASTTransformVisitor):
+        """Rules that return a node that existed before the call."""
+
+        def visit_VReq(self, node):
+            return node.child
+
+        def visit_VOne(self, node):
+            return _CTX["bystander"]
+
     class Collect(ASTVisitor[list]):
         def generic_visit(self, node):
             return [type(node).__name__] + [x for c in node.get_child_nodes() for x in self.visit(c)]
@@ -83,7 +93,7 @@ def _ops():
         "xpath-match": lambda r, n: ASTXpath("//VLeaf").match(r, n), "pattern": lambda r, n: NodeMatcher.from_pattern("(* @v -> x)")[0].match(n),
         "multi-pattern": lambda r, n: MultiPatternMatcher([("a", "(VMixed @items=[* -> t])"), ("b", "(*)")]).match(n),
         "visit": lambda r, n: Collect().visit(r), "transform-rewrite": lambda r, n: Rewrite().transform(r), "transform-remove": lambda r, n: Remove().transform(r),
-        "transform-raises": safe(lambda r, n: Raises().transform(r)), "duplicate": lambda r, n: n.duplicate(),
+        "transform-raises": safe(lambda r, n: Raises().transform(r)), "transform-returns-existing-nodes": lambda r, n: Unwrap().transform(r), "duplicate": lambda r, n: n.duplicate(),
         "replace": lambda r, n: n.replace(origin=n.origin), "replace-raises": safe(lambda r, n: n.replace(no_such=1)),
         "replace-rejected-by-subclass-validation": safe(lambda r, n: n.replace(note="bad")),
         "dataclasses.replace-rejected-by-subclass-validation": safe(lambda r, n: dc.replace(n, note="bad")),
